@@ -103,6 +103,7 @@ def strat_history(draw, tier):
                 own_struct[name] = draw(st.integers(0, (1 << bits) - 1))
         calls.append({
             "own_struct": own_struct,
+            "positional": draw(st.booleans()),
             "overlap": overlap,
             "refuse_send": refuse, "dims": draw(st.booleans()),
             "via": draw(st.sampled_from(["boot", "boot", "controller"])),
@@ -259,7 +260,19 @@ def check_history(case):
                     h.net.send_fault = meanwhile
                 try:
                     with sut("boot", (OSError,)):
-                        if call["via"] == "boot":
+                        if call["via"] == "boot" and \
+                                style == "sv_overrides" and \
+                                call.get("positional"):
+                            # every parameter by position, in the
+                            # documented order
+                            structs = rboot.boot(
+                                host, 54321, kwargs.get("scamp_binary"),
+                                kwargs.get("sark_struct"),
+                                kwargs["boot_delay"],
+                                kwargs["post_boot_delay"],
+                                kwargs["sv_overrides"])
+                            classes.add("all-positional")
+                        elif call["via"] == "boot":
                             structs = rboot.boot(host, **kwargs)
                         else:
                             from rig.machine_control import MachineController
